@@ -18,6 +18,6 @@ func init() {
 		return e.Close, e.Srv.SetFault, nil
 	}
 	registry["C15"] = entry{run: c15.Run, level: "exploration",
-		rule: "cases = chaos runs against one broker each, built with the Go race detector and seeded delays at the broker's lock hand-over points: 20-60 scripted v3.1.1/v5 clients (a third sharing client ids) connect, subscribe/unsubscribe (overlapping, shared), publish QoS0-2 (retained, aliases), stop acknowledging, DISCONNECT, close abruptly, some connections never complete CONNECT, while 4 API goroutines call Publisher, SubscriptionService, ClientService (incl. TerminateSession), StatsManager and RetainedService; wills with delays and 1 s session expiries fire meanwhile; Stop is called while traffic flows; GOMAXPROCS rotates over 16/2/4/1. Monitors: race log, recovered and fatal panics, 30 s request watchdog with two goroutine dumps, Stop result, listeners, sockets at EOF, plugin Load/Unload/OnStop counts, goroutine profile polled for 10 s; plus porcupine linearizability of recorded concurrent histories of the retained and subscription stores. Distinct by run parameters / history. Plus directed cases: Stop with pending delayed wills, the will timer firing while the lock holder signals, sessions restored from redis at start-up, refused v3 requests, Stop during a tear-down; chaos runs alternate delivery_mode and one in four runs on redis; panics recovered by connection goroutines are seen through a verif hook.",
+		rule: "cases = chaos runs against one broker each, built with the Go race detector and seeded delays at the broker's lock hand-over points: 20-60 scripted v3.1.1/v5 clients (a third sharing client ids) connect, subscribe/unsubscribe (overlapping, shared), publish QoS0-2 (retained, aliases), stop acknowledging, DISCONNECT, close abruptly, some connections never complete CONNECT, while 4 API goroutines call Publisher, SubscriptionService, ClientService (incl. TerminateSession), StatsManager and RetainedService; wills with delays and 1 s session expiries fire meanwhile; Stop is called while traffic flows; GOMAXPROCS rotates over 16/2/4/1. Monitors: race log, recovered and fatal panics, 30 s request watchdog with two goroutine dumps, Stop result, listeners, sockets at EOF, plugin Load/Unload/OnStop counts, goroutine profile polled for 10 s; plus porcupine linearizability of recorded concurrent histories of the retained and subscription stores. Distinct by run parameters / history. Plus directed cases: Stop with pending delayed wills, the will timer firing while the lock holder signals, sessions restored from redis at start-up, refused v3 requests, Stop during a tear-down; chaos runs alternate delivery_mode and one in four runs on redis; panics recovered by connection goroutines are seen through a verif hook. Plus a resumed session whose client stops reading right after CONNACK (20 x 512 KiB retransmissions stuck in its socket, in-flight entries expired, queue full): another client's PUBLISH to its topic and a fresh client are still answered, Stop returns.",
 		assumptions: []string{"the Go race detector sees only the schedules produced", "goroutines are attributed to gmqtt by function name (one broker at a time in the process)"}}
 }
